@@ -853,6 +853,14 @@ func genConfHTTP(g *gen) {
 				t.str("username", "user"+strconv.Itoa(k))
 				t.str("password", secret())
 				t.boolean("handshake-first", r.chance(1, 2))
+				if r.chance(1, 4) {
+					// a profile nested inside this one ([sasl.<nm>.east]: a profile of its own, named "<nm>.east"): its
+					// settings are a sub-table of <nm>'s table
+					t.section("sasl", nm, "east")
+					t.str("username", "east"+strconv.Itoa(k))
+					t.str("password", secret())
+					t.str("mechanism", "SCRAM-SHA-256")
+				}
 			}
 			for k := 0; k < ntls; k++ {
 				nm := nameOf(r, "tls", k)
